@@ -55,7 +55,7 @@ TReset == /\ IsEv("Reset")
 
 Key(h) == <<archid, basecfg, gen'[h]>>
 TGen == /\ IsEv("Gen")
-        /\ Ev.em \in E /\ Ev.p \in 1 .. 6
+        /\ Ev.em \in E /\ Ev.p \in 1 .. 8
         /\ GenLegal(Ev.em, Ev.p)
         /\ Ev.h = em[Ev.em].code
         /\ Gen(Ev.em, Ev.p)
@@ -112,7 +112,7 @@ ResetIsInit == (last.e = "ResetH") =>
 ReinitIsFresh == (last.e = "Reinit" /\ lastok) =>
                  /\ HolderOK(last.h, last.H[last.h], fh, archid)
                  /\ last.H[last.h].cnt = fh[2]
-                 /\ \A e \in E : em[e].code = last.h => PrivEq(kinds[e], last.E[e].priv, fe[KindIx(kinds[e])][2], RelaxJa)
+                 /\ \A e \in E : em[e].code = last.h => PrivEq(kinds[e], last.E[e].priv, fe[KindIx(kinds[e])][2], RelaxJa)   \* Assembler: .text, offset 0
 
 (* digest = <<sections, labels, relocations, address table, image, sections without their names>> *)
 DigEq(a, b) == IF KName \in Known THEN \A i \in 2 .. 6 : a[i] = b[i] ELSE \A i \in 1 .. 5 : a[i] = b[i]
